@@ -54,9 +54,9 @@ ASSUMPTIONS = [
 ]
 WORKERS = {"quick": 16, "thorough": 16}
 REQUIRE = {"requests": 400, "responses_compared": 450, "status_int_checked": 200, "status_ds_checked": 40,
-           "extras_checked": 25, "nostatus_checked": 8, "badtype_checked": 8, "exception_checked": 25,
-           "datasets_compared": 120, "unencodable_checked": 10, "count_dest_codes_checked": 15,
-           "ts_explicit": 50, "ts_implicit": 50}
+           "extras_checked": 15, "nostatus_checked": 4, "badtype_checked": 8, "exception_checked": 20,
+           "datasets_compared": 70, "unencodable_checked": 10, "count_dest_codes_checked": 20,
+           "ts_explicit": 50, "ts_implicit": 50, "ts_big": 15, "ts_deflated": 15}
 MAX_INCONCLUSIVE_FRAC = 0.03
 EXTRA_KEYS = {"ErrorComment": "ec", "OffendingElement": "oe", "ErrorID": "eid", "AttributeIdentifierList": "ail"}
 
